@@ -18,6 +18,7 @@ once drops each of them exactly once.  A step time-out that abandons a handler i
 import NexoVerif.Lemmas.DropOther
 import NexoVerif.Lemmas.TaskThm
 import NexoVerif.Lemmas.AbortThm
+import NexoVerif.Lemmas.ReplySlotThm
 import NexoVerif.Extracted
 
 namespace NexoVerif.DropM
@@ -229,3 +230,78 @@ example : ∃ s, Reach 2 abortFirstSrc unparkAllSrc s ∧ s.agent = .done ∧ s.
   exact this
 
 end NexoVerif.Abort
+
+/-! ## the reply slot of `process_query` and `QuerySource` (M-SLOT)
+
+A query's reply travels from the replying model to the caller through the one-shot slot of `util/slot.rs`: a heap cell
+shared by one writer and one reader, freed by whoever leaves last.  A simulation dropped with a reply never read, a
+query whose model is gone, a reader dropped while the reply is being written: every interleaving of the atomic steps of
+the two sides. -/
+
+namespace NexoVerif.Slot
+
+/-- **slot_program_shape** — the atomic operations, the accesses to the value and the free of the four operations of the
+slot, in textual order, read from the source on every run: the step structure of M-SLOT. -/
+theorem slot_program_shape :
+    Extracted.slotWrite = [.call "write_value", .rmw "state" "fetch_or" .release, .fence .acquire,
+      .call "drop_value_in_place", .call "Box::from_raw"] ∧
+    Extracted.slotWriterDrop = [.load "state" .acquire, .rmw "state" "fetch_or" .acqrel, .call "Box::from_raw"] ∧
+    Extracted.slotTryRead = [.load "state" .acquire, .store "state" .relaxed, .call "read_value"] ∧
+    Extracted.slotReaderDrop = [.load "state" .acquire, .rmw "state" "fetch_or" .acqrel, .call "drop_value_in_place",
+      .call "Box::from_raw"] := by
+  refine ⟨by decide, by decide, by decide, by decide⟩
+
+/-- **the_reply_slot_is_freed_exactly_once_by_the_last_to_leave** — in every reachable state: nothing that would be
+undefined behaviour has happened (no access after the free, no second free, no read or drop of a value that is not there,
+no overwrite); the allocation is not freed while a handle still exists, and is freed — exactly once — when both are gone. -/
+theorem the_reply_slot_is_freed_exactly_once_by_the_last_to_leave {s : St} (r : Reach s) :
+    s.bad = false ∧ ((s.wpc ≠ .done ∨ s.rpc ≠ .done) → s.freed = 0) ∧ ((s.wpc = .done ∧ s.rpc = .done) → s.freed = 1) := by
+  have i := inv_reach r
+  refine ⟨i.nobad, ?_, ?_⟩
+  · intro h; rw [i.freedEq]; rcases h with h | h <;> simp [h]
+  · intro h; rw [i.freedEq]; simp [h]
+
+/-- **a_reply_is_read_or_dropped_exactly_once** — the value is moved out by at most one `try_read`; when both handles are
+gone it is not left in the cell: if the write succeeded it was either read or dropped in place by the reader's drop, and
+if the write failed (the reader had gone) the writer dropped it. -/
+theorem a_reply_is_read_or_dropped_exactly_once {s : St} (r : Reach s) :
+    s.reads ≤ 1 ∧ (s.reads = 1 ↔ s.cell = .taken) ∧
+    ((s.wpc = .done ∧ s.rpc = .done) → s.cell ≠ .full ∧ (s.wroteOk = true → s.cell = .taken ∨ s.cell = .dropped)) := by
+  have i := inv_reach r
+  refine ⟨i.readsLe.1, ⟨i.readsLe.2, fun h => (i.takenOk h).2⟩, ?_⟩
+  intro h
+  have nf : s.cell ≠ .full := by
+    intro hf
+    rcases i.fullOwned hf with h1 | h1
+    · rcases h1 with h1 | h1 <;> simp [h.1] at h1
+    · exact h1.2.1 h.2
+  refine ⟨nf, fun hw => ?_⟩
+  rcases (i.okFull hw).2 with h1 | h1 | h1
+  · exact absurd h1 nf
+  · exact Or.inl h1
+  · exact Or.inr h1
+
+/-- **a_written_reply_is_there_for_the_reader** — after a successful `write`, as long as the reader has neither read nor
+been dropped, the state word says `POPULATED` and the value is in the cell: the next `try_read` returns it. -/
+theorem a_written_reply_is_there_for_the_reader {s : St} (r : Reach s) (hw : s.wroteOk = true) (hr : s.rpc = .idle)
+    (h0 : s.reads = 0) : s.pop = true ∧ s.cell = .full := by
+  have i := inv_reach r
+  have hp : s.pop = true := by
+    rcases i.okPop hw with h | h | h | h
+    · exact h
+    · rw [hr] at h; cases h
+    · omega
+    · rw [hr] at h; cases h
+  exact ⟨hp, i.popFull hp (by rw [hr]; simp)⟩
+
+-- non-vacuity: the reader is dropped while the writer is between writing the value and publishing it; the writer cleans up
+example : (runLabels [.wWriteValue, .rDropLoad, .rDropOr, .wPublish, .wClean] {}).map
+    (fun s => (s.bad, s.freed, s.cell, s.wroteOk, s.wpc, s.rpc)) = some (false, 1, .dropped, false, .done, .done) := by decide
+-- non-vacuity: write, read, both dropped
+example : (runLabels [.wWriteValue, .wPublish, .rTryLoad, .rTryStore, .rTryTake, .rDropLoad, .rFree] {}).map
+    (fun s => (s.bad, s.freed, s.cell, s.reads)) = some (false, 1, .taken, 1) := by decide
+-- non-vacuity: a reply nobody reads is dropped by the reader's drop
+example : (runLabels [.wWriteValue, .wPublish, .rDropLoad, .rFree] {}).map
+    (fun s => (s.bad, s.freed, s.cell, s.reads)) = some (false, 1, .dropped, 0) := by decide
+
+end NexoVerif.Slot
